@@ -7,7 +7,7 @@ use adblock::Engine;
 use serde_json::json;
 
 const KEYS: &[&str] = &["utm", "utm_source", "a", "b", "fbclid", "k", "", "Utm", "a-b", "k_1", "\u{e9}"];
-const VALS: &[&str] = &["1", "", "x=y", "v", "%20", "\u{fc}", "=", "#"];
+const VALS: &[&str] = &["1", "", "x=y", "v", "%20", "\u{fc}", "=", "#", "jane@mail.test", "@b.net", "x@a.com:1"];
 const HOSTS: &[&str] = &["a.com", "sub.a.com", "b.net", "utm.org"];
 
 fn query(r: &mut Rng) -> String {
@@ -41,6 +41,10 @@ pub fn gen_url(r: &mut Rng) -> String {
         _ => {}
     }
     let mut u = format!("{}://{}/{}", scheme, host, r.pick(&["", "p", "p/q.html", "utm", "P/Q"]));
+    if r.pct(15) {
+        // no path at all: the query follows the host directly
+        u = format!("{}://{}", scheme, host);
+    }
     match r.below(10) {
         0 => {}
         1 => u.push('?'),
@@ -172,6 +176,8 @@ pub fn run(seed: u64, n: usize, out: &mut Out) {
                 Ok(q) => q,
                 Err(_) => continue,
             };
+            // which rules apply is decided from the request as the crate read it: the reading itself is compared with the model's
+            crate::c12::emit_url_case(out, &url);
             let res = engine.check_network_request(&req);
             let mut names = vec![];
             let mut important = false;
